@@ -13,12 +13,43 @@ set_option linter.unusedVariables false
 
 variable {α ℓ : Type}
 
-theorem chunk_nil (p : Nat) : chunk p ([] : List α) = [] := by
-  rw [chunk]; simp
+theorem chunk_nil (p : Nat) : chunk p ([] : List α) = [] := rfl
+
+theorem chunkF_fuel2 (p : Nat) (hp : 0 < p) : ∀ (f : Nat) (xs : List α) (g : Nat), xs.length ≤ f → xs.length ≤ g →
+    chunkF p f xs = chunkF p g xs := by
+  intro f
+  induction f with
+  | zero =>
+    intro xs g h _
+    have : xs = [] := List.length_eq_zero_iff.mp (by omega)
+    subst this
+    cases g <;> simp [chunkF]
+  | succ f ih =>
+    intro xs g h hg
+    cases xs with
+    | nil => cases g <;> simp [chunkF]
+    | cons a t =>
+      cases g with
+      | zero => simp at hg
+      | succ g =>
+        simp only [chunkF, List.isEmpty_cons]
+        have hd : ((a :: t).drop p).length ≤ t.length := by simp only [List.length_drop, List.length_cons]; omega
+        simp only [List.length_cons] at h hg
+        rw [ih _ g (by omega) (by omega)]
+
+theorem chunkF_fuel (p : Nat) (hp : 0 < p) (f : Nat) (xs : List α) (h : xs.length ≤ f) :
+    chunkF p f xs = chunkF p xs.length xs := chunkF_fuel2 p hp f xs xs.length h (Nat.le_refl _)
 
 theorem chunk_cons {p : Nat} (hp : 0 < p) {xs : List α} (hx : xs ≠ []) :
     chunk p xs = xs.take p :: chunk p (xs.drop p) := by
-  rw [chunk]; simp [hx, Nat.ne_of_gt hp]
+  cases xs with
+  | nil => exact absurd rfl hx
+  | cons a t =>
+    unfold chunk
+    simp only [List.length_cons, chunkF, List.isEmpty_cons]
+    have hd : ((a :: t).drop p).length ≤ t.length := by simp only [List.length_drop, List.length_cons]; omega
+    rw [chunkF_fuel p hp _ _ hd]
+    simp [Nat.ne_of_gt hp]
 
 theorem chunk_flatten {p : Nat} (hp : 0 < p) : ∀ (n : Nat) (xs : List α), xs.length = n → (chunk p xs).flatten = xs := by
   intro n
